@@ -123,6 +123,22 @@ impl Write for SchedWriter {
     }
 }
 
+pub struct ChunkWriter {
+    sink: Vec<u8>,
+    lens: Vec<usize>,
+}
+
+impl Write for ChunkWriter {
+    fn write(&mut self, buf: &[u8]) -> Result<usize> {
+        self.lens.push(buf.len());
+        self.sink.extend_from_slice(buf);
+        Ok(buf.len())
+    }
+    fn flush(&mut self) -> Result<()> {
+        Ok(())
+    }
+}
+
 fn unit_res(r: Result<()>) -> String {
     match r {
         Ok(()) => "ok".to_string(),
@@ -185,6 +201,13 @@ pub fn io_ser_ops<T: Model + BorshSerialize>(op: &str, args: &[&str]) -> Option<
                     (r, slice.len())
                 };
                 format!("{} {} room={}", unit_res(r), hex(&buf[..cap - room]), room)
+            } else if *w == "c" {
+                // a writer that takes every buffer whole and records its length: the write_all calls
+                // the serializer makes (std's and the shim's write_all call write once for such a writer)
+                let mut cw = ChunkWriter { sink: Vec::new(), lens: Vec::new() };
+                let r = borsh::to_writer(&mut cw, &x);
+                let lens: Vec<String> = cw.lens.iter().map(|n| n.to_string()).collect();
+                format!("{} {} chunks={}", unit_res(r), hex(&cw.sink), if lens.is_empty() { "-".to_string() } else { lens.join(",") })
             } else if let Some(s) = w.strip_prefix("s:") {
                 let sched = match wsched_of(s) {
                     Some(s) => s,
